@@ -138,6 +138,22 @@ def cases():
                     ['p0.patch', 'p1.patch'], ['hunkless-entry-for-a-missing-file'], first_fail=None, props=('C05', 'C09'),
                     expect={'exit': '0', 'applied': ['p0.patch', 'p1.patch'], 'tree': dict(F, g=(_apply(b'g', 2, b'G2'), 0o755)), 'rejects': [], 'dirs': ['empty/', 'empty/dir/']}))
 
+    # ---- ... also when a later patch creates that file and is rolled back: what a patch that failed (or a worker that ran ahead)
+    # did in memory leaves no trace, not even "this file was there once"
+    ghost = b'diff --git a/empty/dir/ghost b/empty/dir/ghost\nold mode 100644\nnew mode 100755\n'
+    out.append(Case('mode change for a missing file below empty directories, then a failing patch that creates the file first', fe,
+                    {'p0.patch': ghost, 'p1.patch': create(b'empty/dir/ghost', [b'n1', b'n2']) + mod(b'g', b'g', 2, b'X', bad=True)}, ['p0.patch', 'p1.patch'],
+                    ['hunkless-entry-for-a-missing-file', 'file-created-by-the-failing-patch'], first_fail=1, props=('C05', 'C06', 'C09'),
+                    expect={'exit': '1', 'applied': ['p0.patch'], 'tree': dict(F), 'rejects': ['g.rej'], 'dirs': ['empty/', 'empty/dir/']}))
+    out.append(Case('mode change for a missing file below empty directories, a failing patch, then a patch that creates the file', fe,
+                    {'p0.patch': ghost, 'p1.patch': mod(b'g', b'g', 2, b'X', bad=True), 'p2.patch': create(b'empty/dir/ghost', [b'n1', b'n2'])}, ['p0.patch', 'p1.patch', 'p2.patch'],
+                    ['hunkless-entry-for-a-missing-file', 'file-created-behind-the-failing-patch'], first_fail=1, props=('C05', 'C06', 'C09'),
+                    expect={'exit': '1', 'applied': ['p0.patch'], 'tree': dict(F), 'rejects': ['g.rej'], 'dirs': ['empty/', 'empty/dir/']}))
+    out.append(Case('mode change for a missing file below empty directories, then a failing patch that renames a file onto it', fe,
+                    {'p0.patch': ghost, 'p1.patch': b'diff --git a/keep b/empty/dir/ghost\nrename from keep\nrename to empty/dir/ghost\n' + mod(b'g', b'g', 2, b'X', bad=True)}, ['p0.patch', 'p1.patch'],
+                    ['hunkless-entry-for-a-missing-file', 'file-renamed-onto-it-by-the-failing-patch'], first_fail=1, props=('C05', 'C06', 'C09'),
+                    expect={'exit': '1', 'applied': ['p0.patch'], 'tree': dict(F), 'rejects': ['g.rej'], 'dirs': ['empty/', 'empty/dir/']}))
+
     # ---- known limitation (KF-03): a name that is a file for one patch and a directory for another, within one push
     out.append(Case('file a deleted, then a/b created', dict(F, a=(b'x\ny\n', 0o644)), {'p0.patch': delete(b'a', [b'x', b'y']), 'p1.patch': create(b'a/b', [b'n1', b'n2'])}, ['p0.patch', 'p1.patch'],
                     ['name-is-file-and-directory-within-one-push'], first_fail=None, props=('C09',)))
